@@ -200,4 +200,17 @@ B("validation-fieldset-union-method", ["*"], [("_validation.py", "        fieldS
 B("docstrings-and-comments", ["*"], [("_output.py", "        message.update(self._globalFields)\n        errors = []", "        # merge global fields first\n        message.update(self._globalFields)\n\n        errors = []"),
                                      ("_action.py", "        if self._finished:\n            return\n        self._finished = True", "        if self._finished:\n            # already finished: nothing to do\n            return\n        self._finished = True")])
 
+B("preserve-context-flag-under-lock", ["*"], [("_action.py",
+  "    called = threading.Lock()\n\n    def restore_eliot_context(*args, **kwargs):\n        # Make sure the function has not already been called:\n        if not called.acquire(False):\n            raise TooManyCalls(f)\n",
+  "    lock = threading.Lock()\n    called = False\n\n    def restore_eliot_context(*args, **kwargs):\n        nonlocal called\n        with lock:\n            if called:\n                raise TooManyCalls(f)\n            called = True\n")])
+B("exit-try-finally-reset-first", ["*"], [("_action.py",
+  "        _ACTION_CONTEXT.reset(self._parent_token)\n        self._parent_token = None\n        self.finish(exception)",
+  "        try:\n            _ACTION_CONTEXT.reset(self._parent_token)\n        finally:\n            self._parent_token = None\n        self.finish(exception)")])
+B("send-merge-into-new-dict-correct-order", ["C08", "C13", "C01", "C11", "C07"], [("_output.py",
+  "        message.update(self._globalFields)\n        errors = []", "        message.update(dict(self._globalFields))\n        errors = []")])
+B("failure-fields-helper", ["*"], [("_action.py",
+  "            fields = _error_extraction.get_fields_for_exception(self._logger, exception)\n            fields[EXCEPTION_FIELD] = \"%s.%s\" % (\n                exception.__class__.__module__,\n                exception.__class__.__name__,\n            )\n            fields[REASON_FIELD] = safeunicode(exception)\n            fields[ACTION_STATUS_FIELD] = FAILED_STATUS\n",
+  "            fields = _error_extraction.get_fields_for_exception(self._logger, exception)\n            fields[EXCEPTION_FIELD] = _exception_name(exception.__class__)\n            fields[REASON_FIELD] = safeunicode(exception)\n            fields[ACTION_STATUS_FIELD] = FAILED_STATUS\n"),
+  ("_action.py", "_TASK_ID_NOT_SUPPLIED = object()", "_TASK_ID_NOT_SUPPLIED = object()\n\n\ndef _exception_name(cls):\n    return \"%s.%s\" % (cls.__module__, cls.__name__)\n")])
+
 VARIANTS = V
